@@ -125,6 +125,17 @@ def morph(kind, fmt, b_from, b_to, vals, style):
         obj.nBytes
         ab.encode(obj)
     rebind = style % 4 == 3    # some attributes are given NEW arrays, the others are edited in place
+    if kind == "Data2D":
+        # the cells of the frames x cameras grid are replaced one by one IN the grid the block holds
+        # (another number of points, none at all): the grid object stays the same
+        grid = obj.data
+        for fr in range(b_to["nFrames"]):
+            for c in range(len(b_to["camMap"])):
+                pts = b_to["data"][fr][c]
+                grid[fr, c] = (np.array([[vals.flt("f32", x), vals.flt("f32", y)] for x, y in pts], dtype="<f4") if pts else None)
+        if rebind:
+            obj.data = grid.copy()
+        return obj
     name, per = RLE_KINDS[kind]
     items = ab.items_of(kind, obj)
 
@@ -872,6 +883,11 @@ def check(prop, tier, seed, replay=None):
     # block of the same shape in place after the library has looked at it
     groups = {}
     for vec in vecs:
+        if vec["kind"] == "Data2D" and vec["b"].get("nFrames", 0) > 0 and vec["b"].get("camMap"):
+            key = ("Data2D", vec["fmt"], vec["b"]["nFrames"], len(vec["b"]["camMap"]),
+                   json.dumps({k: v for k, v in vec["b"].items() if k != "data"}, sort_keys=True))
+            groups.setdefault(key, []).append(vec)
+            continue
         if vec["kind"] in RLE_KINDS and not mutants or (mutants and vec["kind"] in RLE_KINDS):
             name, _ = RLE_KINDS[vec["kind"]]
             n = vec["b"].get("nFrames", vec["b"].get("nSamples"))
